@@ -40,6 +40,7 @@ type PropSpec struct {
 	Mutants     []string      `json:"mutants,omitempty"`
 	Computed    []string      `json:"computed_premises,omitempty"`
 	Scan        *scanOpts     `json:"scan_nondeterminism,omitempty"`
+	ScanAst     *astScanOpts  `json:"scan_ast_writes,omitempty"`
 	Ignore      []string      `json:"goals_of_other_properties,omitempty"` // regexps: goal obligations that belong to another property's check
 }
 
@@ -135,7 +136,7 @@ func runCheck(id, tier, repo, verif string, seed int, writeEv bool) int {
 		}
 	}
 	work := filepath.Join(verif, ".work", id)
-	o := &runOpts{repo: repo, work: work, timeout: timeout, seed: seed, cross: tier == "thorough", jobs: 16, scan: ps.Scan}
+	o := &runOpts{repo: repo, work: work, timeout: timeout, seed: seed, cross: tier == "thorough", jobs: 16, scan: ps.Scan, astScan: ps.ScanAst}
 	for _, r := range ps.Functions {
 		o.funcs = append(o.funcs, regexp.MustCompile("^(?:"+r+")$"))
 	}
